@@ -1420,6 +1420,191 @@ def _attr_edit(g: G) -> Act | None:
 
 
 # ---------------------------------------------------------------------------
+# further public entry points: Region.erase, erase_block(index), Builder, ImplicitBuilder,
+# deprecated PatternRewriter aliases
+# ---------------------------------------------------------------------------
+
+
+@gen("Region.erase", "erase", 1)
+def _region_erase(g: G) -> Act | None:
+    r = g.region() if g.faulty else g.region(detached_region)
+    if r is None:
+        return None
+    return Act("Region.erase", lambda: r.erase(), [r], f"{g.n(r)}.erase()", kills=[r])
+
+
+@gen("Region.erase_block(index)", "erase", 1)
+def _erase_block_idx(g: G) -> Act | None:
+    safe = not g.s.flag(1, 3)
+    r = g.region(lambda r: r._first_block is not None)
+    if r is None:
+        return None
+    n = region_len(r)
+    cands = [i for i in range(n) if g.faulty or not safe or _block_safe_erasable(g, r.blocks[i])]
+    if not cands:
+        return None
+    idx = cands[g.s.pos_choice(len(cands))]
+    b = r.blocks[idx]
+    if g.s.flag(1, 3):
+        idx -= n
+    return Act("Region.erase_block(index)", lambda: r.erase_block(idx, safe_erase=safe), [r, b], f"{g.n(r)}.erase_block({idx}, safe_erase={safe})", kills=[b])
+
+
+@gen("Builder.insert", "rewriter", 3)
+def _builder_insert(g: G) -> Act | None:
+    """The plain Builder (not a PatternRewriter), with a BuilderListener attached; the
+    insertion point is the builder's own or an explicit one; also the deprecated alias."""
+    from xdsl.builder import BuilderListener
+
+    ipt = _insert_point(g)
+    if ipt is None:
+        return None
+    mk, objs, d = ipt
+    ops = _new_ops_for_ip(g, objs, 3)
+    explicit = None
+    d2 = "None"
+    if g.s.flag(1, 3):
+        ipt2 = _insert_point(g)
+        if ipt2 is not None:
+            mk2, objs2, d2 = ipt2
+            ops = _new_ops_for_ip(g, objs2, 3)
+            explicit = mk2
+            objs = objs + objs2
+    arg: Any = ops
+    od = g.ns(ops)
+    if len(ops) == 1 and g.s.flag(1, 2):
+        arg, od = ops[0], g.n(ops[0])
+    alias = g.s.flag(1, 4)
+    g.fault_at = 1 + g.s.choice(3) if g.s.flag(1, 8) else 0
+
+    def run() -> Any:
+        import warnings
+
+        g.notifications = 0
+
+        def note(*_: Any) -> None:
+            g.notifications += 1
+            if g.fault_at and g.notifications == g.fault_at:
+                raise ListenerFault()
+
+        b = Builder(mk())
+        b.extend_from_listener(BuilderListener(operation_insertion_handler=[note], block_creation_handler=[note]))
+        with warnings.catch_warnings():
+            warnings.simplefilter("ignore")
+            f = b.insert_op if alias else b.insert
+            return f(arg, explicit() if explicit is not None else None)
+
+    lf = f" [listener raises at notification {g.fault_at}]" if g.fault_at else ""
+    return Act("Builder.insert", run, [*objs, *ops], f"Builder({d}).{'insert_op' if alias else 'insert'}({od}, {d2}){lf}", listener_fault_at=g.fault_at)
+
+
+@gen("ImplicitBuilder", "create", 2)
+def _implicit_builder(g: G) -> Act | None:
+    """Operations created inside ``with ImplicitBuilder(block | single-block region | Builder)``
+    are appended at the builder's insertion point (creation and insertion in one step);
+    optionally a nested implicit builder on a second block."""
+    from xdsl.builder import ImplicitBuilder
+
+    if len(g.u.ops) >= g.max_ops:
+        return None
+    kind = g.s.choice(3)
+    b = g.block()
+    if b is None:
+        return None
+    target: Any = b
+    td = g.n(b)
+    objs: list[Any] = [b]
+    if kind == 1:
+        r = g.region(lambda r: r._first_block is not None and r._first_block is r._last_block) if not g.faulty else g.region()
+        if r is None:
+            return None
+        target, td, objs = r, g.n(r), [r]
+        b = r._first_block
+    elif kind == 2:
+        ipt = _insert_point(g)
+        if ipt is None:
+            return None
+        mk, objs, d = ipt
+        target, td = None, f"Builder({d})"
+    n_new = 1 + g.s.choice(3)
+    specs = []
+    for _ in range(n_new):
+        cls = OPCLS[g.s.weighted((3, 2, 1))]
+        operands = g.some(lambda: g.value(), 2, distinct=False)
+        nres = g.s.weighted((2, 4, 1))
+        specs.append((cls, operands, nres))
+    b2 = g.block(lambda x: x is not b) if g.s.flag(1, 3) else None
+    vals = [v for _, ops_, _ in specs for v in ops_]
+
+    def run() -> Any:
+        made: list[Operation] = []
+        tgt = target if target is not None else Builder(mk())
+        with ImplicitBuilder(tgt):
+            for i, (cls, operands, nres) in enumerate(specs):
+                made.append(cls.create(operands=operands, result_types=[i32] * nres))
+                if b2 is not None and i == 0:
+                    with ImplicitBuilder(b2):
+                        made.append(TestOp.create(result_types=[i64]))
+        return made
+
+    return Act("ImplicitBuilder", run, [*objs, *vals, *([b2] if b2 is not None else [])], f"with ImplicitBuilder({td}): create {n_new} ops" + (f" (nested: ImplicitBuilder({g.n(b2)}))" if b2 is not None else ""))
+
+
+@gen("PatternRewriter.erase_op (deprecated alias)", "patternrewriter", 1)
+def _pr_erase_alias(g: G) -> Act | None:
+    safe = not g.s.flag(1, 3)
+    o = g.op() if g.faulty else g.op(lambda o: not safe or _unused(o))
+    if o is None:
+        return None
+
+    def body(rw: PatternRewriter) -> Any:
+        import warnings
+
+        with warnings.catch_warnings():
+            warnings.simplefilter("ignore")
+            return rw.erase_op(o, safe_erase=safe)
+
+    return _pr(g, "PatternRewriter.erase_op (deprecated alias)", body, [o], f"erase_op({g.n(o)}, safe_erase={safe})", kills=[o])
+
+
+@gen("PatternRewriter.replace_op / replace_matched_op (deprecated aliases)", "patternrewriter", 2)
+def _pr_replace_alias(g: G) -> Act | None:
+    o = g.op() if g.faulty else g.op(attached_op)
+    if o is None:
+        return None
+    safe = not g.s.flag(1, 4)
+    arg, new_ops, new_results, d = _replace_args(g, o)
+    vals = [v for v in (new_results or []) if v is not None]
+    matched = g.s.flag(1, 2)
+    g.fault_at = 1 + g.s.choice(4) if g.s.flag(1, 6) else 0
+
+    def run() -> Any:
+        import warnings
+
+        g.notifications = 0
+        with warnings.catch_warnings():
+            warnings.simplefilter("ignore")
+            if matched:
+                rw = _mk_rewriter(g, o)
+                return rw.replace_matched_op(arg, new_results, safe_erase=safe)
+            cur = o if o.parent is not None else o
+            rw = _mk_rewriter(g, cur)
+            return rw.replace_op(o, arg, new_results, safe_erase=safe)
+
+    lf = f" [listener raises at notification {g.fault_at}]" if g.fault_at else ""
+    nm = "replace_matched_op" if matched else "replace_op"
+    return Act(
+        "PatternRewriter.replace_op / replace_matched_op (deprecated aliases)",
+        run,
+        [o, *new_ops, *vals],
+        f"PatternRewriter({g.n(o)}).{nm}({d}, safe_erase={safe}){lf}",
+        kills=[o],
+        group="patternrewriter",
+        listener_fault_at=g.fault_at,
+    )
+
+
+# ---------------------------------------------------------------------------
 # starting IR ("any starting IR"): built with the public constructors only
 # ---------------------------------------------------------------------------
 
